@@ -2,43 +2,68 @@
 // run-time supplied metadata block.
 //   case:   meta <hexblock> <hexkey>,<hexkey>,...
 //   output: it=<t>:<v>;... len=<n> q=<t>:<v>,...
+// Every block is read twice: from an exact-size heap copy (ASan sees reads past
+// it) and from one arena that all cases share, so that the same address holds
+// a different block in every case (a result may depend on the bytes only).
 #include "hcommon.h"
 #include <rtosc/ports.h>
 
+static std::string read_block(const char *base, const std::vector<std::string> &keys)
+{
+    rtosc::Port port{"x", base, nullptr, nullptr};
+    auto m = port.meta();
+    std::ostringstream o;
+    o << "it=";
+    bool first = true;
+    for(const auto x : m) {
+        if(!first) o << ";";
+        first = false;
+        o << (x.title - base) << ":" << (x.value ? x.value - base : -1);
+    }
+    o << " len=" << m.length() << " q=";
+    first = true;
+    for(auto &key : keys) {
+        auto it = m.find(key.c_str());
+        const char *v = m[key.c_str()];
+        if(!first) o << ",";
+        first = false;
+        long to = it.title ? it.title - base : -1;
+        long vo = v ? v - base : -1;
+        // find's iterator carries the same value pointer operator[] returns
+        if(it.title && it.value != v) o << "MISMATCH";
+        o << to << ":" << vo;
+    }
+    return o.str();
+}
+
 int main()
 {
+    static char arena[1 << 16];
     std::string line;
     while(std::getline(std::cin, line)) {
         auto f = split(line, ' ');
         if(f.size() < 3 || f[0] != "meta") { puts("BADCASE"); continue; }
-        ExactBuf blk(unhex(f[1]));
-        const char *base = (const char*)blk.p;
-        rtosc::Port port{"x", base, nullptr, nullptr};
-        auto m = port.meta();
-        std::ostringstream o;
-        o << "it=";
-        bool first = true;
-        for(const auto x : m) {
-            if(!first) o << ";";
-            first = false;
-            o << (x.title - base) << ":" << (x.value ? x.value - base : -1);
-        }
-        o << " len=" << m.length() << " q=";
-        first = true;
+        auto bytes = unhex(f[1]);
+        std::vector<std::string> keys;
         for(auto &hk : split(f[2], ',')) {
             auto kb = unhex(hk);
-            std::string key(kb.begin(), kb.end());
-            auto it = m.find(key.c_str());
-            const char *v = m[key.c_str()];
-            if(!first) o << ",";
-            first = false;
-            long to = it.title ? it.title - base : -1;
-            long vo = v ? v - base : -1;
-            // find's iterator carries the same value pointer operator[] returns
-            if(it.title && it.value != v) o << "MISMATCH";
-            o << to << ":" << vo;
+            keys.emplace_back(kb.begin(), kb.end());
         }
-        puts(o.str().c_str());
+        ExactBuf blk(bytes);
+        std::string a = read_block((const char*)blk.p, keys);
+        if(bytes.size() + 2 <= sizeof arena) {
+            memcpy(arena, bytes.data(), bytes.size());
+            arena[bytes.size()] = arena[bytes.size() + 1] = 0;
+            std::string b = read_block(arena, keys);
+            if(a != b) a += " SAME-ADDRESS-READ=" + b;
+            // ... and directly afterwards a different block at that address
+            static const std::vector<uint8_t> tiny = {':', 'q', 0, '=', 'r', 's', 0, 0};
+            static const std::string t0 = [] { ExactBuf t(tiny); return read_block((const char*)t.p, {"q", "z"}); }();
+            memcpy(arena, tiny.data(), tiny.size());
+            std::string t1 = read_block(arena, {"q", "z"});
+            if(t0 != t1) a += " SAME-ADDRESS-REREAD=" + t1 + " expected " + t0;
+        }
+        puts(a.c_str());
     }
     return 0;
 }
